@@ -235,6 +235,10 @@ func (s *SoftwrapScanner) Scan(ctx vxfw.DrawContext) bool {
 			s.rest = append(s.rest, trSpace...)
 			// Append the rest...
 			s.rest = append(s.rest, rest...)
+			// s.state describes the first rune of the segment we just
+			// split, not the first rune of the new s.rest: let uniseg
+			// determine the state again
+			s.state = -1
 			return true
 		}
 
